@@ -50,10 +50,12 @@ func TestMain(m *testing.M) {
 	}
 	run = vk.Start("C15", "exploration")
 	run.Rule("for each of N seeded authentic CoA/Disconnect requests (both codes, 0-12 attributes, own secret of 1-64 octets incl. non-ASCII/NUL and leading/trailing white space, own listener process; every third listener runs the real CoAProcessor of coa_handler.go as its handler): the request itself; every single-bit flip of its first 64 octets; every single-octet substitution beyond; the length field set to every value 0..len+4 and far values; truncation at every octet; datagrams shorter than 20 octets with a consistent length field; length field shortened and re-signed (authentic prefix + unauthenticated tail); padding beyond L incl. forged attributes and >4096 octets; the request signed with 13+ other secrets (prefixes, extensions, one-bit neighbours, empty); classic wrong authenticators; authentic packets with 16 other codes; authentic requests with broken attribute regions; 40 random datagrams. Every datagram goes over loopback UDP to the real listener started by CoAServer.Start. non-trivial = distinct (secret, datagram) that passes the size checks (len >= 20 and 20 <= L <= len), so that whether it is acted on is decided by the MD5 comparison or later" + ". ALSO " +
-		"overlap workload (overlap_test.go), per listener process (direct handlers / real CoAProcessor alternating, own secret): episodes X1, X2 where X1 is an authentic request whose session-changing callback (handler, or the processor's policy updater / terminator) is held by the monitor until released and X2 - sent only after the listener process reported X1's callback entered - is each of: junk, a request with a bad authenticator (same or other identifier), a byte-identical replay of X1, the same request under another identifier, an authentic request for another session; both orders; release all at once / first-in-first-out / last-in-first-out; plus bursts of 4-24 back-to-back authentic requests (distinct identifier, token, session) with junk, bad-authenticator requests and one replay interleaved, to callbacks that take 1-3 ms each or are held until the burst is out. An episode counts as an overlap only if the first callback was observed held when the second datagram was sent; what became of the second datagram meanwhile (waiting in the socket queue / consumed) is observed, not assumed")
+		"overlap workload (overlap_test.go), per listener process (direct handlers / real CoAProcessor alternating, own secret): episodes X1, X2 where X1 is an authentic request whose session-changing callback (handler, or the processor's policy updater / terminator) is held by the monitor until released and X2 - sent only after the listener process reported X1's callback entered - is each of: junk, a request with a bad authenticator (same or other identifier), a byte-identical replay of X1, the same request under another identifier, an authentic request for another session; both orders; release all at once / first-in-first-out / last-in-first-out; plus bursts of 4-24 back-to-back authentic requests (distinct identifier, token, session) with junk, bad-authenticator requests and one replay interleaved, to callbacks that take 1-3 ms each or are held until the burst is out. An episode counts as an overlap only if the first callback was observed held when the second datagram was sent; what became of the second datagram meanwhile (waiting in the socket queue / consumed) is observed, not assumed" + ". ALSO " +
+		"retention workload (retain_test.go), per listener process (direct handlers / real CoAProcessor, own secret), episodes: 1-3 authentic requests (session named by Acct-Session-Id, Framed-IP only, Calling-Station-Id only, unknown id + Framed-IP, or all three; NAS-IP, Filter-Id, time-outs, Class, vendor-specific, a long Reply-Message; attributes in random order) are accepted by handlers that KEEP the request object (pointer + deep copy taken at hand-over; processor listeners also keep the *PolicyUpdate given to the policy updater); then 9-12 later datagrams, every kind at least once per episode: inauthentic request with the layout of a kept request naming another subscriber, other inauthentic request, truncated request (also a prefix of the kept one), junk, authentic request for another session, 4096 octets of a recognisable pattern, 4096-octet plausible request with a wrong authenticator, more than 4096 octets, authentic 4096-octet request. Each datagram is sent alone, judged by the ordinary clauses once the listener process reported quiescence, and then EVERY kept object is compared field by field with its copy; on direct listeners the kept requests are finally applied through the real CoAProcessor (deferred application) and the session changes judged. A comparison counts only if the listener process reported the object among those it keeps")
 	run.Assume("a datagram for which sendto(2) on loopback has returned is in the listener's socket queue; the listener may handle datagrams in any order and on any goroutine: a case is collected only after its probe was answered and the listener process reported quiescence (socket queue empty, no harness handler in flight, a reader of package radius parked in its socket read, no other goroutine of package radius active), all within bounded waits - otherwise the case is inconclusive")
 	run.Assume("a byte-identical copy of an authentic request is itself an authentic datagram: acting on it again and answering it again is accepted, as is suppressing it (between 1 and k handler calls and replies for k copies, each reply verifying against the request); copies are sent only by the overlap workload")
 	run.Assume("octets beyond the RADIUS length field are padding (RFC 2865 s.3); authentic packets with other codes / unparsable attributes may be dropped or NAKed but must not reach a handler; zero-length attribute values and a single stray trailing octet are accepted either way; authentic packets with L > 4096 are not required to be acted on")
+	run.Assume("a handler may keep the request object it is given beyond its own return (bng documents no lifetime limit and its own CoAProcessor hands the object to an audit logger): a later datagram of any kind changing such an object is an effect of that datagram; identifier and Request Authenticator are not part of bng's request objects and are judged on the replies only")
 	run.Assume("the mutation workload never sends an exact duplicate of an authentic request to one listener process (a duplicate-suppressing listener would be correct)")
 	run.Floor("authentic_requests_acted_on", 100)
 	run.Floor("inauthentic_reaching_md5_comparison_silent", 5000)
@@ -66,6 +68,18 @@ func TestMain(m *testing.M) {
 	run.Floor("responses_verified_after_overlap", 800)
 	run.Floor("responses_verified_after_overlap_held", 300)
 	run.Floor("responses_verified_after_overlap_burst", 500)
+	// retention workload (retain_test.go)
+	run.Floor("retention_episodes", 80)
+	run.Floor("requests_retained", 300)
+	run.Floor("retained_objects_compared", 3000)
+	for _, k := range rtLaterKinds {
+		run.Floor("later_datagrams_kind_"+k, 60)
+		run.Floor("retained_objects_compared_after_later_"+k, 200)
+	}
+	run.Floor("later_datagrams_filling_the_receive_buffer", 250)
+	run.Floor("deferred_applications_judged", 150)
+	run.Floor("deferred_changes_applied_session_found_by_address", 60)
+	run.Floor("policy_update_objects_retained", 20)
 	code := m.Run()
 	ec := run.Finish()
 	if code != 0 && ec == 0 {
